@@ -379,11 +379,23 @@ type outageQ struct {
 // having been sent to an authority while it was produced (a question whose
 // answer cannot be in or derived from any cache is flagged regardless).
 func (run *runner) anchorLoss(w *world, index, onlyCase int) {
+	// The history needs a complete warm-up and a quiescent point; on an
+	// overloaded box an upstream timeout can spoil either. Nothing is judged
+	// from a spoiled attempt; try again on a fresh pipeline (at most twice).
+	for attempt := 0; attempt < 3; attempt++ {
+		if run.anchorLossOnce(w, index, onlyCase) {
+			return
+		}
+		run.r.Count("anchor_loss/attempts_repeated", 1)
+	}
+}
+
+func (run *runner) anchorLossOnce(w *world, index, onlyCase int) (done bool) {
 	r := run.r
 	before := resolver.VerifC01RefreshRuns()
 	st := run.newStack(w)
 	if st == nil {
-		return
+		return true
 	}
 	defer st.Close()
 	res := st.Handler.VerifResolver()
@@ -422,7 +434,7 @@ func (run *runner) anchorLoss(w *world, index, onlyCase int) {
 	}
 	if warmOK < len(warm)-1 {
 		r.Count("anchor_loss/warmup_incomplete", 1)
-		return
+		return false
 	}
 
 	// ---- quiescent point: the start-up AutoTA run has ended ------------------
@@ -440,11 +452,11 @@ func (run *runner) anchorLoss(w *world, index, onlyCase int) {
 	}
 	if !st.Quiesce(5 * time.Second) {
 		r.Count("anchor_loss/not_quiescent", 1)
-		return
+		return false
 	}
 	if res.VerifC01TrustAnchorCount() == 0 {
 		r.Count("anchor_loss/no_anchor_before_outage", 1)
-		return
+		return false
 	}
 	saved := res.VerifC01ClearTrustAnchors()
 	restored := false
@@ -468,6 +480,7 @@ func (run *runner) anchorLoss(w *world, index, onlyCase int) {
 		oq("negative", "warm", false, mkq("zone-nxdeep", "x.y.nxout."+zone, dns.TypeTXT)),
 		oq("negative", "warm", false, mkq("zone-nodata", "mx."+zone, dns.TypeA)),
 		oq("wildcard", "warm", false, mkq("zone-wild", "wout.wild."+zone, dns.TypeA)),
+		oq("wildcard", "warm", false, mkq("zone-wild2", "deep.w2out.wild."+zone, dns.TypeA)),
 		oq("alias", "warm", true, mkq("zone-cname-x", "alias."+zone, dns.TypeA)),
 		oq("dnskey", "warm", false, mkq("zone-dnskey", zone, dns.TypeDNSKEY)),
 		oq("positive", "tld", false, mkq("tld-soa", tld, dns.TypeSOA)),
@@ -570,11 +583,13 @@ func (run *runner) anchorLoss(w *world, index, onlyCase int) {
 		run.report(j, cs, w, reply, from)
 	}
 
+	r.Sample(map[string]any{"directed": w.spec.Directed, "pattern": w.spec.Pattern(), "history": "warm-up with anchors -> live trust set emptied (AutoTA fail-closed assignment) -> outage questions -> anchors restored -> recovery",
+		"outage_questions": len(list), "warm_zone": zone, "cold_zone": other})
 	// ---- phase 3: anchors back, recovery ----------------------------------------
 	res.VerifC01RestoreTrustAnchors(saved)
 	restored = true
 	if onlyCase >= 0 {
-		return
+		return true
 	}
 	st.Quiesce(2 * time.Second)
 	// cached failures of the outage may be served for a while (RFC 9520):
@@ -607,6 +622,7 @@ func (run *runner) anchorLoss(w *world, index, onlyCase int) {
 			fmt.Fprintf(os.Stderr, "H%d recovery %-44s -> %s ad=%v\n", index, q, cls, reply != nil && reply.AuthenticatedData)
 		}
 	}
+	return true
 }
 
 // islandCut asks names of the signed zone below the insecure cut on a COLD
